@@ -39,6 +39,7 @@ def main():
     srcdir = None
     label = None
     multi = False
+    fast = False
     i = 1
     while i < len(args):
         if args[i] == "--checks":
@@ -50,6 +51,9 @@ def main():
         elif args[i] == "--label":
             label = args[i + 1]
             i += 2
+        elif args[i] == "--fast":  # target check (+ extras of seed_extra.txt) only, no companions
+            fast = True
+            i += 1
         elif args[i] == "--multi":  # several changes of one property under one label: <label>-<pid>-<k>
             multi = True
             i += 1
@@ -64,7 +68,7 @@ def main():
         for line in open("/verif/tools/companions.txt"):
             a, b = line.strip().split(":")
             comp[a] = b.split()
-        checks = [pid] + comp.get(pid, [])
+        checks = [pid] + ([] if fast else comp.get(pid, []))
         extra = {}
         if os.path.exists("/verif/tools/seed_extra.txt"):
             for line in open("/verif/tools/seed_extra.txt"):
